@@ -118,6 +118,16 @@ pub struct RefCharInfo {
     pub primary: usize,
 }
 
+/// Bit of a category in a character's category set; categories beyond the 18 assignable ids (and
+/// certainly beyond 31) are carried by no character.
+pub fn cat_bit(i: usize) -> u32 {
+    if i < 32 {
+        1u32 << i
+    } else {
+        0
+    }
+}
+
 pub struct RefChars<'a> {
     pub def: &'a CharDef,
 }
@@ -375,7 +385,7 @@ impl<'a> RefDict<'a> {
         let len = chars.len();
         let rc = self.chars();
         let infos: Vec<RefCharInfo> = chars.iter().map(|&c| rc.info(c)).collect();
-        let space_bit = rc.space_idx().map(|i| 1u32 << i);
+        let space_bit = rc.space_idx().map(cat_bit);
         let mut lat = RefLattice {
             len,
             lid_count: vec![0; self.conn.num_left],
